@@ -37,7 +37,7 @@ class Cur:
 # ---- case decoding ---------------------------------------------------------
 
 def dec_framer(c):
-    k = c.take()
+    k = c.take() % 10          # + 10 * construction path: the declared framer is the same
     if k == 1:
         return ("len", c.take(), c.take())
     if k == 2:
@@ -501,7 +501,7 @@ class C13(diffcheck.DiffProp):
     rule = ("cases = corpus (D5/D14 witnesses, minimised failures) + generated: frame lists through the real Framed "
             "sink and back through the real Framed stream under a scripted reader (every cut point and byte-by-byte "
             "for streams <= 16 bytes, random read sizes / zero reads / errors otherwise; LengthDelimited widths 1..8 "
-            "both byte orders, AnyDelimited 1..3 byte delimiters, CharDelimited with 1..4 byte chars, NoopFramer), "
+            "both byte orders, AnyDelimited 1..3 byte delimiters, CharDelimited with 1..4 byte chars, NoopFramer; every framer and the BytesCodec built by new(), Default::default() or a clone of either, about half of the cases by a path other than new()), "
             "hostile byte streams and hostile buffers through Framer::extract, control-message lists through "
             "AncillaryBuilder/AncillaryIter with buffer sizes 0..96 and 128, raw control buffers (well-formed, "
             "truncated, lying cmsg_len), programs of feed/send/flush/close on the Framed sink with a codec that fails "
